@@ -59,6 +59,7 @@ INNER = ["DictNode", "DefaultDictNode", "ListNode", "SetNode", "TupleNode", "Met
          "RandomStateNode", "RandomGeneratorNode", "TreeNode", "LossNode"]
 RARE = ["CachedNode", "QuantileForestNode"]
 
+INERT_KEYS = ["extra", "children", "obj", "attrs"]      # top-level keys no loader reads
 SCALARS = [None, 0, 1, 2, -1, 1.5, 2.0, 1.0, True, False, "", "x", "numpy", "json", "scipy", "root", "key_types"]
 CONTAINERS = [[], {}, [1], ["a", "b"], {"a": 1}, {"__id__": 1}, [[]]]
 
@@ -84,6 +85,9 @@ class Gen:
                 return (f"verif_cm_{k}", self.r.choice(["C", "f", "missing"]))
             return self.r.choice(TYPICAL[loader])
         r = self.r.random()
+        if r < 0.035:
+            # names that are not strings at all (JSON null / number / list): no position may accept them silently
+            return self.r.choice([(None, None), (None, None), (None, "partial"), ("builtins", None), (1, 2), (None, 0), ([], None)])
         if r < 0.62:
             return self.r.choice(TYPICAL[loader])
         if r < 0.85:
@@ -137,6 +141,9 @@ class Gen:
             self.anc.pop()
         if self.r.random() < 0.97:
             st["__id__"] = nid
+        if self.r.random() < 0.04 and depth > 0:
+            # a key no loader reads, holding something that looks like a node: must stay inert
+            st[self.r.choice(INERT_KEYS)] = self.inert(depth - 1, lambda: None)
         self.made.append(st)
         return st
 
@@ -176,8 +183,19 @@ class Gen:
     def b_BytearrayNode(self, d):
         return self.hdr("BytearrayNode", file="m1.bin")
 
+    def inert(self, d, usual):
+        """a slot the loader treats as plain JSON: sometimes holds something that LOOKS like a node (it must stay inert)"""
+        if self.r.random() < 0.3:
+            keep = (self.next_id, list(self.made))
+            st = self.node(max(d, 0))
+            self.made = keep[1]          # never repeated elsewhere as a real node
+            return st
+        return usual()
+
     def b_SliceNode(self, d):
-        return self.hdr("SliceNode", content={"start": self.r.choice([None, 0, 1]), "stop": self.r.choice([None, 5]), "step": None})
+        return self.hdr("SliceNode", content={"start": self.inert(d, lambda: self.r.choice([None, 0, 1])),
+                                              "stop": self.inert(d, lambda: self.r.choice([None, 5])),
+                                              "step": self.inert(d, lambda: None) if self.r.random() < 0.3 else None})
 
     def b_NdArrayNode(self, d):
         if d < 0 or self.r.random() < 0.6:
@@ -378,6 +396,12 @@ def gen_case(rnd, protocols=(2, 2, 2, 1, 0, 3), malformed_p=0.35, max_depth=4, c
     sch = g.schema(rnd.randint(0, max_depth))
     malformed = rnd.random() < malformed_p
     notes = []
+    if rnd.random() < 0.08:
+        # an archive without any __id__ (the key is optional): every node is its own object
+        for _path, st in list(all_paths(sch)):
+            if isinstance(st, dict) and "__loader__" in st:
+                st.pop("__id__", None)
+        notes = ["idless"]
     if malformed:
         for _ in range(5):
             s2, notes = mutate(rnd, sch, rnd.choice([1, 1, 2, 3]))
